@@ -368,6 +368,8 @@ theorem fixedDigits16_2 : ∀ b : Byte, (fixedDigits 16 2 b.toNat).map (digitCha
 theorem digitChar_lower_not_upper : ∀ d, d < 36 → ¬ (65 ≤ (digitChar false d).toNat ∧ (digitChar false d).toNat ≤ 90) := by decide
 theorem digitChar_upper_not_lower : ∀ d, d < 36 → ¬ (97 ≤ (digitChar true d).toNat ∧ (digitChar true d).toNat ≤ 122) := by decide
 
+theorem digitChar_ne_nul : ∀ d, d < 36 → ∀ up, digitChar up d ≠ 0#8 := by decide
+
 theorem canonNat_mem {b : Nat} (hb : 2 ≤ b) (up : Bool) (n : Nat) (c : Byte) (hc : c ∈ canonNat up b n) :
     ∃ d, d < b ∧ c = digitChar up d := by
   simp only [canonNat, List.mem_map] at hc
